@@ -319,8 +319,21 @@ def examine_sampled(case):
     env = nd_env(case.get("limit"))
     if case.get("limit") is not None:
         # a configured max_recursion_depth that the deterministic mode gets by with must do for this mode too
-        st, _ = lib.find(q, doc, _LIMITED[case["limit"]][1])
+        st, got_det = lib.find(q, doc, _LIMITED[case["limit"]][1])
         if st != "ok":
+            if got_det["type"] != "JSONPathRecursionError":
+                return None
+            # ... and data the deterministic mode refuses as too deep is refused on every outcome of the random choices
+            state = _random.getstate()
+            try:
+                for s_ in case["seeds"]:
+                    _random.seed(s_)
+                    st2, got2 = lib.find(q, doc, env)
+                    if st2 == "ok":
+                        return fail("limit-not-enforced:sampled", f"{q!r} with max_recursion_depth={case['limit']}: the deterministic mode raises "
+                                    f"JSONPathRecursionError, nondeterministic mode under random seed {s_} returns {len(got2)} nodes", "JSONPathRecursionError", len(got2))
+            finally:
+                _random.setstate(state)
             return None
     det = [l for l, _ in ev.find(ast, doc)]
     state = _random.getstate()
